@@ -108,9 +108,24 @@ def parse(lines):
     for line in lines:
         if not line:
             continue
+        try:
+            _parse_line(log, cur, line)
+        except (IndexError, ValueError, struct.error):
+            log.errors.append("truncated " + line[:40])
+    for k in log.by_track:
+        log.by_track[k].sort(key=lambda s: s.it)
+    return log
+
+
+def _parse_line(log, cur, line):
+    if True:
         t = line[0]
         if t == "S":
-            s = parse_S(line)
+            try:
+                s = parse_S(line)
+            except (IndexError, ValueError, struct.error):
+                log.errors.append("truncated " + line[:40])
+                return
             log.steps.append(s)
             cur[(s.it, s.slot)] = s
             log.by_track.setdefault((s.ev, s.trk), []).append(s)
@@ -119,7 +134,7 @@ def parse(lines):
             s = cur.get((int(w[1]), int(w[2])))
             if s is None:
                 log.errors.append("orphan " + line[:40])
-                continue
+                return
             g = [x.split() for x in line.split("|")]
             f = lambda h: fl(h)
             s.M = {"alg": int(g[1][0]), "appl": int(g[1][1]),
@@ -139,7 +154,7 @@ def parse(lines):
             s = cur.get((int(w[1]), int(w[2])))
             if s is None:
                 log.errors.append("orphan " + line[:40])
-                continue
+                return
             if t == "G":
                 s.G = {"dist": fl(w[4]), "bnd": int(w[5]), "hx": w[4]}
             elif t == "L":
@@ -162,7 +177,7 @@ def parse(lines):
         elif t == "I":
             w = line.replace("|", " ").split()
             log.iters.append(tuple(map(int, w[1:9])))
-            cur = {}
+            cur.clear()
         elif t == "A":
             w = line.split(None, 3)
             log.actions[int(w[1])] = (w[2], w[3])
@@ -198,9 +213,6 @@ def parse(lines):
             log.verdict = line[2:]
         elif t == "E":
             log.errors.append(line)
-    for k in log.by_track:
-        log.by_track[k].sort(key=lambda s: s.it)
-    return log
 
 
 def split_runs(lines):
